@@ -321,7 +321,7 @@ theorem solo_self {i : Inst} {s1 s2 : Sys} (hr : SoloRel i s1 s2) (c : SysCall) 
       rw [h1]
       by_cases ha : (s2.inst j).refs ≠ 0
       · rw [if_pos ha, if_pos ha]
-        refine ⟨⟨by simp, ?_⟩, rfl⟩
+        refine ⟨⟨by simpa using h1, ?_⟩, rfl⟩
         simp [getCfg_putCfg_same, h2]
       · rw [if_neg ha, if_neg ha]
         exact ⟨⟨h1, h2⟩, rfl⟩
@@ -337,16 +337,124 @@ theorem solo_self {i : Inst} {s1 s2 : Sys} (hr : SoloRel i s1 s2) (c : SysCall) 
       · rw [if_pos ha, if_pos ha]
         by_cases hs : safe = true
         · simp only [hs, if_true]
-          exact ⟨⟨h1, h2⟩, rfl⟩
+          exact ⟨⟨h1, h2⟩, trivial⟩
         · -- an unsafe change of the configuration of a live decoder is out-of-protocol in both
           have u1 : inUse s1 (s1.cfgOf j) = true := by
             cases j <;> simp [inUse, Sys.cfgOf, Sys.inst] at h1 ha ⊢ <;> simp [h1, ha]
           have u2 : inUse s2 (s2.cfgOf j) = true := by
             cases j <;> simp [inUse, Sys.cfgOf, Sys.inst] at ha ⊢ <;> simp [ha]
           simp only [hs, u1, u2, if_true, if_false, Bool.false_eq_true]
-          exact ⟨⟨h1, h2⟩, rfl⟩
+          exact ⟨⟨h1, h2⟩, trivial⟩
       · rw [if_neg ha, if_neg ha]
         exact ⟨⟨h1, h2⟩, rfl⟩
   | _ => simp [ownOnly] at ho
+
+/-- what an own-configuration call of instance `j` does to the configuration store: the other decoder's identity
+stays, and only the objects `nextCfg` (a new one) and `cfgOf j` (its own) can change -/
+theorem own_store {s : Sys} (c : SysCall) (j : Inst) (hi : instOf c = some j) (ho : ownOnly c = true) :
+    (sysStep s c).1.cfgOf j.other = s.cfgOf j.other ∧
+    ∀ id, id ≠ s.nextCfg → id ≠ s.cfgOf j → getCfg (sysStep s c).1.cfgs id = getCfg s.cfgs id := by
+  cases c with
+  | dec k dc =>
+    have : k = j := by simpa [instOf] using hi
+    subst this
+    simp only [sysStep]
+    split <;> simp
+  | initNew k jsgf g fails =>
+    have : k = j := by simpa [instOf] using hi
+    subst this
+    simp only [sysStep]
+    split
+    · refine ⟨by simp, fun id h1 _ => ?_⟩
+      simp [getCfg_putCfg_ne _ _ h1]
+    · simp
+  | reinitKeep k =>
+    have : k = j := by simpa [instOf] using hi
+    subst this
+    simp [sysStep]
+  | reinitNew k jsgf g =>
+    have : k = j := by simpa [instOf] using hi
+    subst this
+    simp only [sysStep]
+    split
+    · simp
+    · refine ⟨by simp, fun id h1 _ => ?_⟩
+      simp [getCfg_putCfg_ne _ _ h1]
+  | cfgGram t jsgf g =>
+    cases t with
+    | held k => simp [ownOnly] at ho
+    | dec k =>
+      have : k = j := by simpa [instOf] using hi
+      subst this
+      simp only [sysStep, targetObj]
+      by_cases ha : (s.inst k).refs ≠ 0
+      · rw [if_pos ha]
+        refine ⟨by simp, fun id _ h2 => ?_⟩
+        simp [getCfg_putCfg_ne _ _ h2]
+      · rw [if_neg ha]; simp
+  | cfgCall t kt op safe =>
+    cases t with
+    | held k => simp [ownOnly] at ho
+    | dec k =>
+      have : k = j := by simpa [instOf] using hi
+      subst this
+      simp only [sysStep, targetObj]
+      by_cases ha : (s.inst k).refs ≠ 0
+      · rw [if_pos ha]
+        by_cases hs : safe = true
+        · simp [hs]
+        · have u : inUse s (s.cfgOf k) = true := by
+            cases k <;> simp [inUse, Sys.cfgOf, Sys.inst] at ha ⊢ <;> simp [ha]
+          simp [hs, u]
+      · rw [if_neg ha]; simp
+  | _ => simp [ownOnly] at ho
+
+/-- the separation of the two decoders' configurations is kept by own-configuration calls -/
+theorem cfgSep_step {s : Sys} (h : CfgSep s) (c : SysCall) (ho : ownOnly c = true) : CfgSep (sysStep s c).1 := by
+  obtain ⟨hne, ha, hb⟩ := h
+  cases c with
+  | dec k dc =>
+    simp only [sysStep]
+    split
+    · exact ⟨hne, ha, hb⟩
+    · cases k <;> exact ⟨hne, ha, hb⟩
+  | initNew k jsgf g fails =>
+    simp only [sysStep]
+    split
+    · cases k
+      · exact ⟨by simp [Sys.setCfgOf, Sys.setInst]; omega, by simp [Sys.setCfgOf, Sys.setInst],
+               by simp [Sys.setCfgOf, Sys.setInst]; omega⟩
+      · exact ⟨by simp [Sys.setCfgOf, Sys.setInst]; omega, by simp [Sys.setCfgOf, Sys.setInst]; omega,
+               by simp [Sys.setCfgOf, Sys.setInst]⟩
+    · exact ⟨hne, ha, hb⟩
+  | reinitKeep k => simp only [sysStep]; cases k <;> exact ⟨hne, ha, hb⟩
+  | reinitNew k jsgf g =>
+    simp only [sysStep]
+    split
+    · exact ⟨hne, ha, hb⟩
+    · cases k
+      · exact ⟨by simp [Sys.setCfgOf, Sys.setInst]; omega, by simp [Sys.setCfgOf, Sys.setInst],
+               by simp [Sys.setCfgOf, Sys.setInst]; omega⟩
+      · exact ⟨by simp [Sys.setCfgOf, Sys.setInst]; omega, by simp [Sys.setCfgOf, Sys.setInst]; omega,
+               by simp [Sys.setCfgOf, Sys.setInst]⟩
+  | cfgGram t jsgf g =>
+    simp only [sysStep]
+    split <;> exact ⟨hne, ha, hb⟩
+  | cfgCall t kt op safe =>
+    simp only [sysStep]
+    (repeat' split) <;> exact ⟨hne, ha, hb⟩
+  | _ => simp [ownOnly] at ho
+
+/-- an own-configuration call of the OTHER instance changes nothing `i` can observe -/
+theorem solo_other {i : Inst} {s1 s2 : Sys} (hr : SoloRel i s1 s2) (hs : CfgSep s1) (c : SysCall)
+    (hi : instOf c = some i.other) (ho : ownOnly c = true) : SoloRel i (sysStep s1 c).1 s2 := by
+  obtain ⟨h1, h2⟩ := hr
+  have hne : instOf c ≠ some i := by rw [hi]; simpa using other_ne i
+  obtain ⟨e1, e2⟩ := own_store (s := s1) c i.other hi ho
+  have oo : i.other.other = i := by cases i <;> rfl
+  rw [oo] at e1
+  refine ⟨by rw [sysStep_other_inst s1 c i hne]; exact h1, ?_⟩
+  rw [e1, e2 _ (Nat.ne_of_lt (hs.lt i)) (fun e => hs.ne i e.symm)]
+  exact h2
 
 end SSVerif.Protocol
